@@ -544,6 +544,18 @@ struct QHarness {
                     "not among the k=%u oldest stored values in any linearization (longest k-FIFO-consistent prefix: %zu operations)",
                     all.size(), par.k, depth);
       }
+      if (A::spec == S_NIKB && (uint32_t)nthreads > par.cap && !spec.failures_free) {
+        // diagnosis (known finding F23): with more threads than slots the SCQ threshold can be exhausted by stale
+        // dequeuers; are only the full/empty verdicts unjustified (order, loss and duplication still as specified)?
+        QSpec lax = spec;
+        lax.failures_free = true;
+        lin::Checker<QSpec> chk3(lax, all);
+        if (chk3.run(init) && !chk3.capped)
+          vrt::fail("unjustified_verdict_threads_over_capacity",
+                    "history of %zu operations by %d threads on a queue of capacity %u: successful operations are FIFO without loss or duplication, but "
+                    "some try_push/try_pop failed although the queue was not full/empty at any instant of the call (longest consistent prefix: %zu operations)",
+                    all.size(), nthreads, par.cap, depth);
+      }
       const QOp* bad = nullptr;
       vrt::fail(overlap_seen && A::spec == S_KB ? "concurrent_not_linearizable" : "not_linearizable", "history of %zu operations has no linearization w.r.t. the %s specification (longest consistent prefix: %zu operations)%s",
                 all.size(), A::spec == S_FIFO ? "FIFO" : A::spec == S_NIKB || A::spec == S_VYU ? "bounded FIFO" : "k-FIFO", depth, bad ? "" : "");
